@@ -14,7 +14,7 @@ Inductive eobs := EObs (who path : bytes) (hdrs : hmap) (gz : bool) (t : tobs).
 Inductive case :=
 | CExp (f : family) (pr : proto) (opts : list opt) (e : env) (o : eobs)
 | CBsp (i : bsp_in) (cfg : option (Z * Z * Z * Z)) (n : Z) (beh : option (Z * Z))
-| CBlrp (i : blrp_in) (n maxchunk : Z) (total : Z)
+| CBlrp (i : blrp_in) (n maxchunk : Z) (total : Z) (trig : option bool)
 | CLimits (opts : list limits_opt) (e : limits_env) (obs : list Z)
 | CLogLimits (oc ol : option Z) (ec el : bytes) (obs : list Z)
 | CSampler (o : option sopt) (name arg : option bytes) (dec : list bool)
@@ -75,8 +75,7 @@ Definition known4 (f : family) (opts : list opt) (e : env) (g : bool) : bool :=
   end.
 (** F-C20-5: trace / metric exporters, no headers option, the deciding variable holds a
     malformed entry: its well-formed entries are used (and mask the generic variable). *)
-Definition malformed_headers (v : bytes) : bool :=
-  present v && match rd_headers v with Some _ => false | None => true end.
+Definition malformed_headers (v : bytes) : bool := negb (absent_or rd_headers v).
 Definition known5 (f : family) (opts : list opt) (e : env) (h : hmap) : bool :=
   match f, last_some opt_hdrs opts with
   | FLog, _ => false
@@ -137,14 +136,17 @@ Definition check_bsp (i : bsp_in) (cfg : option (Z * Z * Z * Z)) (n : Z) (beh : 
     (when no export can be triggered before the queue overflows) how many records survive. *)
 Definition blrp_behaviour (q b n : Z) : Z * option Z :=
   (Z.min (Z.min b q) n, if ((n <=? q) || (q <? b))%Z then Some (Z.min n q) else None).
-Definition blrp_obs_ok (q b n maxchunk total : Z) : bool :=
+(** [trig]: was an export triggered by the queue length alone (before any flush)?  That
+    happens iff the queue can reach the batch size. *)
+Definition blrp_obs_ok (q b n maxchunk total : Z) (trig : option bool) : bool :=
   let '(mc, tot) := blrp_behaviour q b n in
-  ((mc =? maxchunk) && match tot with Some t => t =? total | None => true end)%Z.
-Definition check_blrp (i : blrp_in) (n maxchunk total : Z) : list N :=
+  ((mc =? maxchunk) && match tot with Some t => t =? total | None => true end)%Z &&
+  match trig with Some t => Bool.eqb t (b <=? Z.min n q)%Z | None => true end.
+Definition check_blrp (i : blrp_in) (n maxchunk total : Z) (trig : option bool) : list N :=
   let '(q, b) := blrp_config i in
   let '(q', b') := blrp_expected i in
-  flag (blrp_obs_ok q b n maxchunk total) V_MISMATCH ++
-  flag (blrp_obs_ok q' b' n maxchunk total) V_SPECFAIL.
+  flag (blrp_obs_ok q b n maxchunk total trig) V_MISMATCH ++
+  flag (blrp_obs_ok q' b' n maxchunk total trig) V_SPECFAIL.
 
 Definition lim_n : Z := 140.
 Definition lim_sub : Z := 135.
@@ -185,7 +187,7 @@ Definition check_case (c : case) : list N :=
   match c with
   | CExp f pr opts e o => check_exp f pr opts e o
   | CBsp i cfg n beh => check_bsp i cfg n beh
-  | CBlrp i n mc tot => check_blrp i n mc tot
+  | CBlrp i n mc tot trig => check_blrp i n mc tot trig
   | CLimits opts e obs => check_limits opts e obs
   | CLogLimits oc ol ec el obs => check_loglimits oc ol ec el obs
   | CSampler o name arg dec => check_sampler o name arg dec
